@@ -63,11 +63,10 @@ class GlueEngine:
         # loops of the harness itself (concrete trip counts over buffers): bound from the harness's own sizes
         big = 8
         for d in defs:
-            m = re.match(r"-DGBUF=(\d+)", d)
+            m = re.match(r"-D(GBUF|BIG|OS_MAXOBJ|OS_MAXFILE|NMAX|BMAX)=(\d+)", d)
             if m:
-                big = max(big, int(m.group(1)) + 8)
-        if big == 8:
-            big = 136
+                big = max(big, int(m.group(2)) + 8)
+        big = max(big, 72)
         for lp in core.show_loops(gb):
             fn = lp.rsplit(".", 1)[0]
             names = ("harness", "glue_fill", "split_text", "check_layout", "expected", "vf_copy", "os_fill", "copy_shadow", "frame")
